@@ -21,6 +21,7 @@
   The wiring itself (which array is handed to which step in `pandora/state_machine.py`) is C08's subject; here
   the run is the composition of the step models in the order of the chain.
 -/
+import PandoraModel.Model.PipelineRun
 import PandoraModel.Properties.C13Flags
 import PandoraModel.Properties.C13PipelineCost
 import PandoraModel.Properties.C13Wiring
@@ -86,94 +87,6 @@ theorem refinePixel_pm (P : Refinement.Params) (costs : List Val) (d : Val) (fla
     Refinement.refinePixel P ⟨costs, d, flag, a, b⟩ = Refinement.refinePixel P ⟨costs, d, flag, a', b'⟩ := rfl
 
 /-! ### the run -/
-
-/-- what a run is configured with, besides the matching-cost input -/
-structure RunCfg where
-  /-- float value of a cost cell -/
-  ev : MC.Cell → Val
-  isMax : Bool
-  disps : List Rat
-  invalid : Val
-  refine : Refinement.Params
-  invalidMask : Nat
-  fs : Nat
-  doRefine : Bool
-  doMedian : Bool
-  /-- block split of `to_disp` -/
-  sW : Blocks.Split
-  /-- block split of the median filter -/
-  sM : Blocks.Split
-
-/-- a disparity map with its flag words -/
-structure Maps where
-  disp : Nat → Nat → Val
-  flag : Nat → Nat → Nat
-
-abbrev gminOf (x : MC.Input) : Int := gridMin x.dminG x.L.rows x.L.cols
-abbrev gmaxOf (x : MC.Input) : Int := gridMax x.dmaxG x.L.rows x.L.cols
-abbrev nOf (x : MC.Input) : Nat := nDisp (gminOf x) (gmaxOf x) x.sp
-
-/-- the cost row of a pixel as the matching-cost step leaves it (no aggregation) -/
-def costRow (K : RunCfg) (x : MC.Input) (r c : Nat) : List Val :=
-  (wtaOfMc x K.ev K.isMax K.disps K.invalid).cv r c
-
-/-- the input of `to_disp` for the cost rows `R` (those of the matching cost, or aggregated ones) -/
-def wtaIn (K : RunCfg) (x : MC.Input) (R : Nat → Nat → List Val) : Wta.Input :=
-  { rows := x.L.rows, cols := x.L.cols, isMax := K.isMax, disps := K.disps, cv := R, invalid := K.invalid }
-
-/-- the disparity map of `to_disp` (model of C03) on the cost rows `R` -/
-def wtaMapR (K : RunCfg) (x : MC.Input) (R : Nat → Nat → List Val) : Nat → Nat → Val :=
-  Wta.toDisp K.sW (wtaIn K x R)
-
-/-- the grid `loop_refinement` iterates over -/
-def refineGridR (K : RunCfg) (x : MC.Input) (R : Nat → Nat → List Val) : List (List Refinement.PixIn) :=
-  Blocks.tabulate x.L.rows x.L.cols fun r c =>
-    ⟨R r c, wtaMapR K x R r c, C04C02.composedMask x r c,
-      ((x.dminG (r : Int) (c : Int) : Int) : Rat), ((x.dmaxG (r : Int) (c : Int) : Int) : Rat)⟩
-
-/-- the maps after the optional refinement (`none`: `loop_refinement` raised) -/
-def afterRefineR (K : RunCfg) (x : MC.Input) (R : Nat → Nat → List Val) : Option Maps :=
-  if K.doRefine then
-    match Refinement.loopRefinement K.refine (refineGridR K x R) with
-    | .ok o =>
-      some ⟨fun r c => match gridImg o ((r : Int), (c : Int)) with | some y => y.d | none => .nan,
-            fun r c => match gridImg o ((r : Int), (c : Int)) with | some y => y.flag | none => 0⟩
-    | .err _ => none
-  else some ⟨wtaMapR K x R, C04C02.composedMask x⟩
-
-/-- the maps after the optional median filter (the filter does not write the flags) -/
-def afterFilterR (K : RunCfg) (x : MC.Input) (R : Nat → Nat → List Val) : Option Maps :=
-  (afterRefineR K x R).map fun m =>
-    if K.doMedian then
-      ⟨Filter.medianFilterDisparity K.sM K.invalidMask K.fs x.L.rows x.L.cols m.flag m.disp, m.flag⟩
-    else m
-
-/-- the pair seen from the right image: images and masks swapped, interval mirrored -/
-def swapInput (x : MC.Input) : MC.Input :=
-  { x with L := x.R, R := x.L, mL := x.mR, mR := x.mL,
-           dminG := fun r c => -x.dmaxG r c, dmaxG := fun r c => -x.dminG r c }
-
-/-- the left dataset of `disparity_checking` -/
-def leftDataset (rows cols : Nat) (A : Maps) : CrossCheck.Dataset :=
-  { disp := Blocks.tabulate rows cols A.disp, mask := Blocks.tabulate rows cols A.flag }
-
-/-- **The whole run for given (aggregated) cost rows** `R` of the pair and `R'` of the swapped pair: left maps, right
-    maps (configuration `K'`), cross-checking.  `none` when a refinement raised. -/
-def fullRunR (K K' : RunCfg) (V : CrossCheck.Variant) (CP : CrossCheck.Params) (x : MC.Input)
-    (R R' : Nat → Nat → List Val) : Option (Nat → Nat → CrossCheck.PixOut) :=
-  match afterFilterR K x R, afterFilterR K' (swapInput x) R' with
-  | some A, some B =>
-    some fun r c => C07.outPix (CrossCheck.check V CP (leftDataset x.L.rows x.L.cols A)
-      { disp := Blocks.tabulate x.L.rows x.L.cols B.disp, mask := [] }) r c
-  | _, _ => none
-
-/-- the run without aggregation: the cost rows are those of the matching-cost model -/
-def afterFilter (K : RunCfg) (x : MC.Input) : Option Maps := afterFilterR K x (costRow K x)
-
-/-- **The whole run without aggregation.** -/
-def fullRun (K K' : RunCfg) (V : CrossCheck.Variant) (CP : CrossCheck.Params) (x : MC.Input) :
-    Option (Nat → Nat → CrossCheck.PixOut) :=
-  fullRunR K K' V CP x (costRow K x) (costRow K' (swapInput x))
 
 /-- the configuration of the composed function of `C13Pipeline.lean` for this run -/
 def cfgOf (K : RunCfg) (x : MC.Input) : PipeCfg where
@@ -708,14 +621,6 @@ theorem runCone_documented (K K' : RunCfg) (CP : CrossCheck.Params) (x : MC.Inpu
 /-! ### Non-vacuity: a 3 × 9 pair (sad, window 3, interval [-1, 0], vfit, median 3, the block splits read from the
     source) and its 3 × 8 crop starting at column 1 satisfy every hypothesis of `run_crop_eq_whole`; pixel (1, 4) of
     the crop — (1, 5) of the whole — has its clipped cone (4 columns to the left, 3 to the right) inside the crop -/
-
-/-- decidable form of `LeftInInterval` -/
-def leftInIntervalB (CP : CrossCheck.Params) (rows cols : Nat) (A : Maps) : Bool :=
-  (List.range rows).all fun r => (List.range cols).all fun c =>
-    Flags.isInvalid (A.flag r c) ||
-      match A.disp r c with
-      | .nan => true
-      | .num v => decide (CP.dmin ≤ CrossCheck.rint v ∧ CrossCheck.rint v ≤ CP.dmax)
 
 theorem leftInInterval_of_B (CP : CrossCheck.Params) (rows cols : Nat) (A : Maps)
     (h : leftInIntervalB CP rows cols A = true) : LeftInInterval CP rows cols A := by
